@@ -405,6 +405,8 @@ impl PropCtx {
                         tape_len.0..=tape_len.1,
                     );
                     let failed = std::cell::Cell::new(false);
+                    // every case that failed on the way down (successively smaller), for the fallback below
+                    let trail: std::cell::RefCell<Vec<C>> = std::cell::RefCell::new(vec![]);
                     let res = runner.run(&strat, |tape| {
                         if abort.load(Ordering::Relaxed) && !failed.get() {
                             return Ok(());
@@ -439,20 +441,38 @@ impl PropCtx {
                                 }
                                 failed.set(true);
                                 abort.store(true, Ordering::Relaxed);
+                                trail.borrow_mut().push(case.clone());
                                 Err(TestCaseError::fail(f.detail))
                             }
                         }
                     });
                     if let Err(TestError::Fail(_, tape)) = res {
                         let mut t = Tape::new(&tape);
-                        let case = decode(&mut t);
-                        // Re-confirm from the shrunk case itself.
-                        let detail = match check(&case) {
+                        let mut case = decode(&mut t);
+                        // Re-confirm from the shrunk case itself. When the failure depends on timing the
+                        // shrinker may have ended on a borderline case: fall back to the larger cases that
+                        // failed on the way down (most recent first), and report the first one that fails
+                        // again. Whatever is reported failed at least twice; nothing is reported otherwise.
+                        let mut detail = match check(&case) {
                             Verdict::Fail(f) => f.detail,
                             other => format!(
                                 "UNSTABLE: shrunk case no longer fails on re-execution ({other:?})"
                             ),
                         };
+                        if detail.starts_with("UNSTABLE") {
+                            let trail = trail.into_inner();
+                            'fallback: for earlier in trail.iter().rev().take(40) {
+                                for _ in 0..2 {
+                                    if let Verdict::Fail(f) = check(earlier) {
+                                        if self.match_known(&f).is_none() {
+                                            detail = format!("{}\n (shrinking was unstable: a smaller case failed once and then passed; this larger case failed again on re-execution)", f.detail);
+                                            case = earlier.clone();
+                                            break 'fallback;
+                                        }
+                                    }
+                                }
+                            }
+                        }
                         let size = serde_json::to_string(&case).map(|s| s.len()).unwrap_or(0);
                         found.lock().unwrap().push((
                             size,
@@ -644,6 +664,9 @@ impl PropCtx {
             .arg(&corpus)
             .arg("--")
             .arg(format!("-runs={runs}"))
+            // backstop only: the campaign is fixed work (-runs); when a campaign of slow executions would
+            // outlast this, it ends early and the evidence shows executions < requested_runs
+            .arg("-max_total_time=1500")
             .arg(format!("-seed={}", (self.seed % 0xFFFF_FFFF).max(1)))
             .arg("-len_control=0")
             .arg(format!("-max_len={max_len}"))
@@ -692,6 +715,7 @@ impl PropCtx {
             "subcheck": sub,
             "engine": "libFuzzer (cargo +nightly fuzz run fz), bytes = choice tape, oracle inside the target",
             "requested_runs": runs,
+            "time_cap_s": 1500,
             "executions": execs,
             "coverage_edges": cov,
             "wall_s": t0.elapsed().as_secs_f64(),
